@@ -7,14 +7,14 @@
 
    C01's encoder (raw_box false / encode_seq false) applied to this tree is the model of InitSegment.Encode;
    C01's decoder (decode_file) applied to those bytes is the model of DecodeFile's box loop.
-   Boxes C01 has no leaf for (esds, stpp, wvtt, dac3, dec3) are MUnknown boxes carrying the payload bytes of the
+   esds is the typed LEsds leaf (whole descriptor tree).  Boxes C01 has no leaf for at this snapshot (stpp, wvtt, dac3, dec3) are MUnknown boxes carrying the payload bytes of the
    C19 models (C19RecModel.hvcrec_encode, C19Model.stpp_payload, ...): C01's decoder returns them as UnknownBox,
    which is NOT what Go's typed decoders do, so equality of the decoded tree says for these boxes only that
    the bytes come back. *)
 From Coq Require Import String Ascii.
 From V.lib Require Import Base.
 From V.c13 Require Import C13Model.
-From V.c19 Require Import C19BoxCodec C19BoxModel.
+From V.c19 Require Import C19BoxCodec C19BoxModel C19BoxEq.
 From V.c19 Require Import C19Model C19RecModel.
 
 (* ------------------------------------------------------------------ constructors that fill in the header *)
@@ -40,18 +40,26 @@ Definition n_dec3 := BS "dec3".
 Definition compressor_name : list N := BS "mp4ff video packager".
 
 (* ------------------------------------------------------------------ sample entries *)
-(* EsdsBox.EncodeSW for CreateEsdsBox(asc): version/flags 0, then the descriptors of CreateESDescriptor, every size
-   field one byte (sizeFieldSizeMinus1 0: byte(size) & 0x7f):
-   ES_Descr(3){ES_ID 1, flags 0, DecoderConfig(4){objectType 0x40, streamType 0x15, bufferSizeDB 0, max/avg bitrate 0,
-   DecSpecificInfo(5){asc}}, SLConfig(6){2}} *)
-Definition n_esds := BS "esds".
-Definition esds_payload (asc : list N) : list N :=
-  let n := lenN asc in
-  [0; 0; 0; 0]
-  ++ [3; (23 + n) mod 128; 0; 1; 0]
-  ++ [4; (15 + n) mod 128; 64; 21; 0; 0; 0; 0; 0; 0; 0; 0; 0; 0; 0]
-  ++ [5; n mod 128] ++ asc
-  ++ [6; 1; 2].
+(* CreateEsdsBox(asc) as the typed esds leaf of the box model (mp4/esds.go, mp4/descriptors.go CreateESDescriptor):
+   version/flags 0; ES_Descr(3){ES_ID 1, flags 0, no dependsOn / URL / OCR,
+     DecoderConfigDescriptor(4){objectType 0x40, streamType 0x15, bufferSizeDB 0, max/avg bitrate 0,
+                                 DecSpecificInfo(5){asc}},
+     SLConfigDescriptor(6){2}}; every size field one byte (sizeFieldSizeMinus1 0: nb = 1), no UnknownData.
+   The ghost `canon` is true: the size fields the encoder writes are in the encoder's form.
+   EsdsBox.EncodeSW writes byte(size) & 0x7f into each one-byte size field (wr_size _ 0). *)
+Definition esds_dcd (asc : list N) : C19BoxModel.desc := DDcd 1 64 21 0 0 0 [DDsi 1 asc] [].
+Definition esds_leaf (asc : list N) : leaf := LEsds 0 0 1 1 0 0 [] 0 (esds_dcd asc) [DSlc 1 2 []] [] true.
+(* the AudioSpecificConfig bytes carried by a (decoded) esds leaf: esds -> ESDescriptor -> DecoderConfigDescriptor ->
+   first DecSpecificInfo -> DecConfig (what mp4a.Esds.DecConfigDescriptor.DecSpecificInfo.DecConfig is in Go) *)
+Definition esds_dec_config (l : leaf) : option (list N) :=
+  match l with
+  | LEsds _ _ _ _ _ _ _ _ (DDcd _ _ _ _ _ _ cs _) _ _ _ =>
+      match find (fun d => match d with DDsi _ _ => true | _ => false end) cs with
+      | Some (DDsi _ dc) => Some dc
+      | _ => None
+      end
+  | _ => None
+  end.
 
 (* Dac3Box.EncodeSW (InitialZeroes 0, Reserved 0): 24 bits *)
 Definition dac3_payload (d : dac3) : list N :=
@@ -88,7 +96,7 @@ Definition entry_box (e : sentry) : option mbox :=
                                            (hr_cfr r) (hr_ntl r) (hr_tin r) (hr_arrays r))])
       | None => None
       end
-  | CfgEsds asc => Some (preb (LAudio (se_name e) (se_dref e) (se_a e) (se_b e) (se_c e)) [unkb n_esds (esds_payload asc)])
+  | CfgEsds asc => Some (preb (LAudio (se_name e) (se_dref e) (se_a e) (se_b e) (se_c e)) [leafb (esds_leaf asc)])
   | CfgDac3 d => Some (preb (LAudio (se_name e) (se_dref e) (se_a e) (se_b e) (se_c e)) [unkb n_dac3 (dac3_payload d)])
   | CfgDec3 d =>
       match dec3_payload d with
@@ -222,7 +230,7 @@ Definition leaf_eq_dec : forall a b : leaf, {a = b} + {a <> b}.
 Proof.
   decide equality;
     repeat first [ apply N.eq_dec | apply Bool.bool_dec | apply Nat.eq_dec | apply tsample_eq_dec | apply sref_eq_dec
-                 | apply list_eq_dec | decide equality ].
+                 | apply desc_eq_dec | apply sge_eq_dec | apply list_eq_dec | decide equality ].
 Defined.
 
 Definition hdr_eqb (a b : hdr) : bool :=
@@ -294,7 +302,8 @@ Definition entry_okb (e : sentry) : bool :=
          | Some r => hvcrec_ok r && (hr_level r <? 256) && forallb (fun a => fst a <? 256) (hr_arrays r)
          | None => false
          end
-  | CfgEsds _ => bytes_eqb (se_name e) n_mp4a
+  (* the one-byte size fields of the esds descriptors hold 23 + len(asc) at most: below 128 *)
+  | CfgEsds asc => bytes_eqb (se_name e) n_mp4a && (lenN asc <=? 100)
   | CfgDac3 _ => bytes_eqb (se_name e) n_ac3
   | CfgDec3 _ => bytes_eqb (se_name e) n_ec3
   | CfgVttC _ => true
